@@ -482,7 +482,17 @@ class Pool(object):
         return self.parsers[logic]
 
     def apply_edit(self, op):
-        """The caller changes the labelling of one state in place."""
+        """The caller changes the labelling of one state in place.  An edit
+        the library refuses (raises) is simply not made - in the history and
+        in the pristine child alike."""
+        try:
+            self._apply_edit(op)
+        except core.HarnessError:
+            raise
+        except Exception:
+            pass
+
+    def _apply_edit(self, op):
         K = self.K[op['k']]
         st = list(K.states())[op['i']]
         lab = op['label']
